@@ -104,6 +104,53 @@ func analyse(repo, verif string) *Result {
 	return c.res
 }
 
+type controlExpect struct {
+	Rule      string `json:"rule"`
+	Construct string `json:"construct"`
+	Status    string `json:"status"`
+}
+
+// runControls analyses the positive-control module (sa/testdata/controls: one seeded violation and one correct instance
+// per rule) with the same engines and compares every obligation with the frozen expectation. A rule that stops firing
+// on its control (or starts firing on the correct instance) makes the whole run fatal: its verdicts cannot be trusted.
+func runControls(verif string) (fired []string, problems []string) {
+	dir := filepath.Join(verif, "sa", "testdata", "controls")
+	var want []controlExpect
+	if err := readJSON(filepath.Join(dir, "expected.json"), &want); err != nil {
+		return nil, []string{"controls: " + err.Error()}
+	}
+	saved := theState
+	theState = nil
+	res := analyse(dir, dir)
+	theState = saved
+	for _, f := range res.Fatal {
+		problems = append(problems, "controls: "+f)
+	}
+	got := map[string]string{}
+	for _, o := range res.Obligations {
+		got[o.Rule+"|"+o.Construct] = o.Status
+	}
+	for _, w := range want {
+		k := w.Rule + "|" + w.Construct
+		st, ok := got[k]
+		switch {
+		case !ok:
+			problems = append(problems, fmt.Sprintf("control %s [%s] produced no obligation (expected %s)", w.Construct, w.Rule, w.Status))
+		case st != w.Status:
+			problems = append(problems, fmt.Sprintf("control %s [%s] is %s, expected %s", w.Construct, w.Rule, st, w.Status))
+		case w.Status == Violated:
+			fired = append(fired, w.Rule+": "+w.Construct)
+		}
+		delete(got, k)
+	}
+	for k, st := range got {
+		problems = append(problems, fmt.Sprintf("control produced an unexpected obligation %s (%s)", k, st))
+	}
+	sort.Strings(fired)
+	sort.Strings(problems)
+	return fired, problems
+}
+
 func main() {
 	repo := flag.String("repo", "/repo", "repository to analyse")
 	verif := flag.String("verif", "/verif", "verification directory (spec/, known_findings.json, evidence/)")
@@ -112,6 +159,7 @@ func main() {
 	dump := flag.Bool("dump", false, "print every obligation")
 	nocache := flag.Bool("nocache", false, "ignore the result cache")
 	evdir := flag.String("evidence-dir", "", "write evidence under this directory instead of <verif>")
+	noControls := flag.Bool("nocontrols", false, "skip the positive controls (debugging only)")
 	symOf := flag.String("sym", "", "debug: print the symbolic summary of the named functions (comma separated) and exit")
 	flag.Parse()
 	start := time.Now()
@@ -146,6 +194,13 @@ func main() {
 	if res == nil {
 		res = analyse(*repo, *verif)
 		res.TreeHash = hash
+		if !*noControls {
+			fired, problems := runControls(*verif)
+			res.Controls = fired
+			for _, pr := range problems {
+				res.Fatal = append(res.Fatal, pr)
+			}
+		}
 		if len(res.Fatal) == 0 {
 			_ = os.MkdirAll(cacheDir, 0o755)
 			if b, err := json.Marshal(res); err == nil {
